@@ -267,6 +267,7 @@ LEVEL_TEXT = (
     "PTO 0-2, TMC, linear grid) every word over the round-trip operations up to length 3 (quick) / 4 (thorough) is executed on the real Output methods; after every "
     "letter the loaded object must equal the original (kinematics, order keys, values and errors bit-exact, grid, pids, projectile, cards by value, predictions for a test PDF) "
     "and no letter may raise."
+    " One output carries 3-7 points per observable in cyclic Q2 disorder with ties and a repeated point, so positions must survive every cycle."
 )
 LEVEL_NOTE = (
     "Trusted: PyYAML, numpy npz, tarfile, tempfile. Cards are compared by value modulo numpy/builtin container types. Outputs outside the 11-element alphabet and words longer than 4 are not covered."
